@@ -466,6 +466,9 @@ def _arg_roots(ctx, b, p, t, ty_rx):
                 if s_['k'] == 'assign' and s_['rv']['k'] == 'agg' and (s_['rv'].get('adt') or '').split('<')[0] == head]
         if len(aggs) == 1:
             return p.op_roots(aggs[0]['rv']['ops'][fi[0]])
+    if cb is not None and not any('NamingState' in cb.locals[i]['ty'] or 'state::State' in cb.locals[i]['ty'] for i in range(1, cb.arg_count + 1)):
+        # the cleanup entry point is handed neither the value nor the naming state it could ask: it derives its own (definite deviation)
+        return {('not-handed', f"{callee.split('::')[-1]} receives no value of type /{ty_rx}/ and no naming state: it derives its own", 0)}
     raise CheckError(f"R07.4/R07.5: how the value of type /{ty_rx}/ reaches {callee.split('::')[-1]} from {b.path.split('::')[-1]} is not recognised")
 
 
